@@ -39,6 +39,18 @@ void cbd (mixed a, mixed b) { destruct (this_object ()); }
 // a call of the inherited function (F_CALL_INHERITED)
 mixed call_base (mixed x) { return ::base_fn (x); }
 
+// function pointers compiled into a program: w = 0 / 2 in this program, w = 1 / 3 in the inherited one
+mixed mkff (int w) {
+  switch (w) {
+  case 0: return (: $1 :);
+  case 1: return mkff_base (0);
+  case 2: return function (mixed x) { return x; };
+  case 4: return (: x0 :);                                  // uses a global: not bindable (a flag bit in hdr.type)
+  case 5: return function (mixed x) { return ({ x, x1 }); };
+  }
+  return mkff_base (1);
+}
+
 // function pointer with one bound argument
 mixed mkfun (mixed a) { return (: cb, a :); }
 
